@@ -173,6 +173,10 @@ def enumerate_injections(ir, uni, kinds=None):
                     out.append(_ins("repeated-key", 2, e2["url"],
                                     e2["idx"] + 1, [ln["t"].strip()]))
             bad = G.DATATYPES[ln["dt"]][1]
+            if bad == "!bad":
+                # three lengths: the simulator datatypes pick the way they
+                # reject by the length of the text
+                bad = ["!bad", "!bad1", "!bad12"][n % 3]
             if "bad-value" in kinds and bad is not None:
                 out.append({"kind": "bad-value", "variant": 0, "url": url,
                             "op": "replace", "idx": idx,
